@@ -55,14 +55,23 @@ func vhRaceMint(withWatcher bool, preempt int) {
 	o2 := cashu.BlindedMessages{env.output("out1", 0, 0)}
 	v.Assume(o1[0].B_ != o2[0].B_)
 	var ok1, ok2 bool
-	v.Go(func() { _, err := m.MintTokens(nut04.PostMintBolt11Request{Quote: q.Id, Outputs: o1}); ok1 = err == nil })
+	v.Go(func() {
+		_, err := m.MintTokens(nut04.PostMintBolt11Request{Quote: q.Id, Outputs: o1})
+		ok1 = err == nil
+	})
 	env.ln.WatcherLive = withWatcher
 	if withWatcher {
 		// the real background watcher (invoicesub.go): subscription reports the invoice settled (or closes)
 		v.Go(func() { m.checkInvoicePaid(m.ctx, q.Id) })
-		v.Go(func() { _, err := m.MintTokens(nut04.PostMintBolt11Request{Quote: q.Id, Outputs: o2}); ok2 = err == nil })
+		v.Go(func() {
+			_, err := m.MintTokens(nut04.PostMintBolt11Request{Quote: q.Id, Outputs: o2})
+			ok2 = err == nil
+		})
 	} else {
-		v.Go(func() { _, err := m.MintTokens(nut04.PostMintBolt11Request{Quote: q.Id, Outputs: o2}); ok2 = err == nil })
+		v.Go(func() {
+			_, err := m.MintTokens(nut04.PostMintBolt11Request{Quote: q.Id, Outputs: o2})
+			ok2 = err == nil
+		})
 	}
 	v.Join(preempt)
 	v.Assert(v.Not(v.And(ok1, ok2)), "C03 concurrent mint requests on one paid quote: at most one issuance per payment")
